@@ -103,8 +103,9 @@ Match(r, ty) == LET pr == Parts[r]  pt == Parts[ty] IN
 
 VARIABLES todo, out, env, budget, sigs, nv, phase, cur,    \* cur: index of the function whose body is being generated
           round,                                             \* simulation: programs finished in this behaviour
-          fw                                                 \* functions from which a later function can be reached
-vars == <<todo, out, env, budget, sigs, nv, phase, cur, round, fw>>
+          fw,                                                \* functions from which a later function can be reached
+          late, ld                                           \* variables bound inside a call-typed lambda; nesting depth of such lambdas
+vars == <<todo, out, env, budget, sigs, nv, phase, cur, round, fw, late, ld>>
 
 Sym(s, x, n) == [s |-> s, x |-> x, n |-> n]
 T(x)    == Sym("T", x, 0)
@@ -113,6 +114,14 @@ EX(ty)  == Sym("EXPR", ty, 0)          \* an expression of type ty
 PA(ty)  == Sym("PAT", ty, 0)           \* a pattern matching values of type ty
 BIND(ty) == Sym("BIND", ty, 0)         \* a fresh variable binder of type ty
 GR(ty)  == Sym("GROUP", ty, 0)         \* an operand: `{ e }` (Gleam groups with braces), so precedence never regroups it
+\* The base of a field access or tuple index: its type must be known when the access is checked.  Gleam checks the
+\* arguments of a call left to right against the callee's parameter types, so the parameter of a lambda passed to
+\* apply / map has its type inside the lambda's body.  An implementation that unifies the arguments only after
+\* inferring all of them does not know it there yet (production "late_use": a variable bound inside such a lambda,
+\* used inside the base of an access).  n = 1 marks an expression inside such a base.
+GRS(ty) == Sym("GROUP", ty, 1)
+LATEON  == Sym("LATE", "", 1)
+LATEOFF == Sym("LATE", "", 0)
 MARK    == Sym("MARK", "", 0)
 POPMARK == Sym("POPMARK", "", 0)
 COMMIT  == Sym("COMMIT", "", 0)
@@ -232,10 +241,10 @@ Callable == IF cur > 0 /\ Generic(cur) THEN (1..(cur - 1)) \ fw ELSE 1..(cur - 1
 Prods(h) ==
   IF h.s \in {"EXPR", "EXPRP"} THEN
     LET ty == h.x  atom == h.x \in DG0  c == Con(h.x)  x == X(h.x)  y == Y(h.x)  next == "v" \o ToString(nv + 1) IN
-    \* rules available at every type (not for EXPRP: the body of a function with an inferred result type starts
-    \* with a rule whose result type is fixed by the rule itself, otherwise a body consisting of recursive
-    \* calls only would legitimately be inferred as a type variable)
-    (IF h.s = "EXPRP" \/ budget < 1 THEN {} ELSE
+    \* rules available at every type (where recursive calls are generated, not for EXPRP: the body of a function
+    \* with an inferred result type then starts with a rule whose result type is fixed by the rule itself, otherwise
+    \* a body consisting of recursive calls only would legitimately be inferred as a type variable)
+    (IF (h.s = "EXPRP" /\ ~({"call_gen_rec", "call_rec_labels"} \subseteq Masked)) \/ budget < 1 THEN {} ELSE
     { P(1, "let_in", <<T("{"), MARK, T("let"), BIND(s), T("="), EX(s), COMMIT, EX(ty), POPMARK, T("}")>>) : s \in Pick(ValueTypes) }
     \cup { P(1, "case", <<T("case"), EX(s), T("{"), MARK, PA(s), COMMIT, T("->"), EX(ty), POPMARK, T("_"), T("->"), EX(ty), T("}")>>) : s \in Pick(ValueTypes) }
     \cup { P(1, "id_call", <<T("id"), T("("), EX(ty), T(")")>>), P(1, "wrap_call", <<T("wrap"), T("("), EX(ty), T(")")>>) }
@@ -255,25 +264,30 @@ Prods(h) ==
     \cup UNION {{ PK(1, "call_rec_labels", CallLabelled("g" \o ToString(k), sigs[k].ps, sigs[k].nl, perm, FALSE), k) : perm \in Pick(PermsOf(LabelIdx(sigs[k]))) }
                 : k \in {j \in RecCallable(ty) : sigs[j].nl > 0}}
     \cup (IF atom THEN
-            { P(1, "tuple_index0", <<GR(Tu(ty, s)), T("."), T("0")>>) : s \in Pick(U0) }
-            \cup { P(1, "tuple_index1", <<GR(Tu(s, ty)), T("."), T("1")>>) : s \in Pick(U0) }
-            \cup { P(1, "box_field", <<GR(Bx(ty)), T("."), T("inner")>>) }
+            { P(1, "tuple_index0", <<GRS(Tu(ty, s)), T("."), T("0")>>) : s \in Pick(U0) }
+            \cup { P(1, "tuple_index1", <<GRS(Tu(s, ty)), T("."), T("1")>>) : s \in Pick(U0) }
+            \cup { P(1, "box_field", <<GRS(Bx(ty)), T("."), T("inner")>>) }
             \* the argument that fixes the lambda parameter's type comes first (arguments are checked left to right; a field
             \* access on a parameter whose type is not known yet is an error in Gleam itself)
-            \cup { P(1, "apply_lambda", <<T("apply"), T("("), EX(s), T(","), T("fn"), T("("), MARK, BIND(s), COMMIT, T(")")>>
-                                        \o <<T("{"), EX(ty), T("}"), POPMARK, T(")")>>) : s \in Pick(U0) }
+            \cup { P(1, "apply_lambda", <<T("apply"), T("("), EX(s), T(","), T("fn"), T("("), MARK, LATEON, BIND(s), COMMIT, T(")")>>
+                                        \o <<T("{"), EX(ty), T("}"), LATEOFF, POPMARK, T(")")>>) : s \in Pick(ValueTypes) }
             \cup { P(1, "pipe_id", <<GR(ty), T("|>"), T("id")>>) }
+            \* the idiom `list.map(people, fn(p) { p.name })`: an access on the parameter of a lambda argument
+            \cup { P(1, "late_use", <<T("apply"), T("("), EX(Tu(ty, s)), T(","), T("fn"), T("("), MARK, LATEON, BIND(Tu(ty, s)), COMMIT, T(")"), T("{"), T(next), T("."), T("0"), T("}"), LATEOFF, POPMARK, T(")")>>) : s \in Pick(U0) }
+            \cup { P(1, "late_use", <<T("apply"), T("("), EX(Bx(ty)), T(","), T("fn"), T("("), MARK, LATEON, BIND(Bx(ty)), COMMIT, T(")"), T("{"), T(next), T("."), T("inner"), T("}"), LATEOFF, POPMARK, T(")")>>) }
+            \cup { P(1, "late_use", <<T("apply"), T("("), EX(f[1]), T(","), T("fn"), T("("), MARK, LATEON, BIND(f[1]), COMMIT, T(")"), T("{"), T(next), T("."), T(f[2]), T("}"), LATEOFF, POPMARK, T(")")>>)
+                   : f \in {g \in {<<"T", "a", "Int">>, <<"T", "b", "String">>, <<"M", "key", "String">>} : g[3] = ty} }
           ELSE {}))
     \* rules by goal type
-    \cup (CASE ty = "Int" -> { P(0, "int", <<T("1")>>), P(1, "field_a", <<GR("T"), T("."), T("a")>>),
+    \cup (CASE ty = "Int" -> { P(0, "int", <<T("1")>>), P(1, "field_a", <<GRS("T"), T("."), T("a")>>),
                                 P(1, "add_fn", CallTo("add", <<"Int", "Int">>, 0, "Int")),
                                 P(1, "pipe_add", <<GR("Int"), T("|>"), T("add"), T("("), EX("Int"), T(")")>>),
                                 \* a prefix operator is written inside its own group: after another expression a `-` would continue it
                                 P(1, "neg", <<T("{"), T("-"), GR("Int"), T("}")>>) }
                               \cup { P(1, "int_op", <<GR("Int"), T(op), GR("Int")>>) : op \in Pick(IntArith) }
             [] ty = "Float" -> { P(0, "float", <<T("1.5")>>) } \cup { P(1, "float_op", <<GR("Float"), T(op), GR("Float")>>) : op \in Pick(FloatArith) }
-            [] ty = "String" -> { P(0, "string", <<T("\"s\"")>>), P(1, "concat", <<GR("String"), T("<>"), GR("String")>>), P(1, "field_b", <<GR("T"), T("."), T("b")>>),
-                                  P(1, "field_key", <<GR("M"), T("."), T("key")>>) }
+            [] ty = "String" -> { P(0, "string", <<T("\"s\"")>>), P(1, "concat", <<GR("String"), T("<>"), GR("String")>>), P(1, "field_b", <<GRS("T"), T("."), T("b")>>),
+                                  P(1, "field_key", <<GRS("M"), T("."), T("key")>>) }
             [] ty = "Bool" -> { P(0, "true", <<T("True")>>), P(1, "not", <<T("{"), T("!"), GR("Bool"), T("}")>>) }
                               \cup { P(1, "int_cmp", <<GR("Int"), T(op), GR("Int")>>) : op \in Pick(IntCmp) }
                               \cup { P(1, "float_cmp", <<GR("Float"), T(op), GR("Float")>>) : op \in Pick(FloatCmp) }
@@ -289,8 +303,10 @@ Prods(h) ==
                              P(1, "ctor_M_swapped", <<T("M"), T("("), EX("Int"), T(","), T("value"), T(":"), EX("Float"), T(","), T("key"), T(":"), EX("String"), T(")")>>) }
             [] c = "List" -> { P(0, "list_one", <<T("["), EX(x), T("]")>>),
                                P(1, "list_spread", <<T("["), EX(x), T(","), T(".."), EX(ty), T("]")>>) }
-                             \cup { P(1, "map_lambda", <<T("map"), T("("), EX(L(s)), T(","), T("fn"), T("("), MARK, BIND(s), COMMIT, T(")")>>
-                                                       \o <<T("{"), EX(x), T("}"), POPMARK, T(")")>>) : s \in Pick(U0) }
+                             \cup { P(1, "late_use", <<T("map"), T("("), EX(L(f[1])), T(","), T("fn"), T("("), MARK, LATEON, BIND(f[1]), COMMIT, T(")"), T("{"), T(next), T("."), T(f[2]), T("}"), LATEOFF, POPMARK, T(")")>>)
+                                    : f \in {g \in {<<"T", "a", "Int">>, <<"T", "b", "String">>, <<"M", "key", "String">>} : g[3] = x} }
+                             \cup { P(1, "map_lambda", <<T("map"), T("("), EX(L(s)), T(","), T("fn"), T("("), MARK, LATEON, BIND(s), COMMIT, T(")")>>
+                                                       \o <<T("{"), EX(x), T("}"), LATEOFF, POPMARK, T(")")>>) : s \in Pick(U0) }
             [] c = "Tuple" -> { P(0, "tuple", <<T("#"), T("("), EX(x), T(","), EX(y), T(")")>>) }
             [] c = "Result" -> { P(0, "mk_ok", <<T("mk_ok"), T("("), EX(x), T(","), EX(y), T(")")>>),
                                  P(0, "mk_err", <<T("mk_err"), T("("), EX(x), T(","), EX(y), T(")")>>) }
@@ -371,13 +387,14 @@ Det(st) ==
       [] h.s = "FUNNAME" -> [st EXCEPT !.out = Append(@, Tok("g" \o ToString(h.n), "fun", SigText(st.sigs, h.n))), !.todo = rest]
       [] h.s = "PARAM" -> LET name == PName(h.n \div 10, h.n % 10) IN
                           [st EXCEPT !.out = Append(@, Tok(name, "binder", h.x)), !.env = Append(@, [m |-> FALSE, b |-> {<<name, h.x>>}]), !.todo = rest]
-      [] h.s = "GROUP" -> [st EXCEPT !.todo = <<T("{"), EX(h.x), T("}")>> \o rest]
+      [] h.s = "GROUP" -> [st EXCEPT !.todo = <<T("{"), Sym("EXPR", h.x, h.n), T("}")>> \o rest]
+      [] h.s = "LATE" -> [st EXCEPT !.ld = IF h.n = 1 THEN @ + 1 ELSE @ - 1, !.todo = rest]
       [] h.s = "MARK" -> [st EXCEPT !.env = Append(@, Mark), !.todo = rest]
       [] h.s = "POPMARK" -> [st EXCEPT !.env = PopToMark(@), !.todo = rest]
       [] h.s = "BIND" ->
            \* binders are collected in a pending frame on top of the stack (not visible until COMMIT)
            LET name == "v" \o ToString(st.nv + 1)  e == st.env IN
-           [st EXCEPT !.out = Append(@, Tok(name, "binder", h.x)), !.nv = @ + 1, !.todo = rest,
+           [st EXCEPT !.out = Append(@, Tok(name, "binder", h.x)), !.nv = @ + 1, !.todo = rest, !.late = IF st.ld > 0 THEN @ \cup {name} ELSE @,
                       !.env = IF e # <<>> /\ e[Len(e)].m = FALSE /\ <<"pending", "">> \in e[Len(e)].b
                               THEN [e EXCEPT ![Len(e)] = [m |-> FALSE, b |-> e[Len(e)].b \cup {<<name, h.x>>}]]
                               ELSE Append(e, [m |-> FALSE, b |-> {<<"pending", "">>, <<name, h.x>>}])]
@@ -389,15 +406,15 @@ Det(st) ==
                               ELSE e]
 RECURSIVE Run(_)
 Run(st) == IF st.todo = <<>> \/ st.todo[1].s \in Choice THEN st ELSE Run(Det(st))
-Conf(td, ss, bud) == [todo |-> td, out |-> out, env |-> env, nv |-> nv, cur |-> cur, sigs |-> ss, bud |-> bud]
-Become(st) == todo' = st.todo /\ out' = st.out /\ env' = st.env /\ nv' = st.nv /\ cur' = st.cur /\ budget' = st.bud
+Conf(td, ss, bud) == [todo |-> td, out |-> out, env |-> env, nv |-> nv, cur |-> cur, sigs |-> ss, bud |-> bud, late |-> late, ld |-> ld]
+Become(st) == todo' = st.todo /\ out' = st.out /\ env' = st.env /\ nv' = st.nv /\ cur' = st.cur /\ budget' = st.bud /\ late' = st.late /\ ld' = st.ld
 
-Init == /\ todo = <<>> /\ out = <<>> /\ env = <<>> /\ budget = Budget /\ sigs = <<>> /\ nv = 0 /\ phase = "header" /\ cur = 0 /\ round = 0 /\ fw = {}
+Init == /\ todo = <<>> /\ out = <<>> /\ env = <<>> /\ budget = Budget /\ sigs = <<>> /\ nv = 0 /\ phase = "header" /\ cur = 0 /\ round = 0 /\ fw = {} /\ late = {} /\ ld = 0
 
 -----------------------------------------------------------------------------
 \* Signatures first.
 ParamTypes == D0 \cup {L("Int"), Tu("Int", "String"), Bx("Int"), R("Int", "String")}
-BfsRets    == D0 \cup {L("Int"), Tu("Int", "String"), R("Int", "String"), Bx("Int"), F1("Int", "Int"), F1("Float", "Int"), F1("Bool", "Int")}
+BfsRets    == D0 \cup {L("Int"), Tu("Int", "String"), R("Int", "String"), Bx("Int"), F1("Int", "Int"), F1("Float", "Int"), F1("Bool", "Int"), F1("String", "Int")}
 Ann(t)  == [t |-> t, kd |-> Kd("ann", NoPin)]
 Free(i) == [t |-> "u" \o ToString(i), kd |-> Kd("free", NoPin)]
 Pinned(t, pin) == [t |-> t, kd |-> Kd("pin", pin)]
@@ -430,7 +447,7 @@ Header ==
                  /\ sigs' = Append(sigs, MkSig(ks, nl, r, IF r \in D0 THEN FALSE ELSE IF r \in D1 THEN TRUE ELSE ra))
                  /\ IF Len(sigs) + 1 = NFuns
                     THEN Become(Run(Conf([k \in 1..NFuns |-> Sym("FUN", "", k)], sigs', Budget))) /\ phase' = "body"
-                    ELSE UNCHANGED <<todo, out, env, nv, cur, phase, budget>>
+                    ELSE UNCHANGED <<todo, out, env, nv, cur, phase, budget, late, ld>>
      ELSE /\ phase' = "body"
           /\ IF Mode = "rules"
              THEN \* one parameterless function per result type: every rule once
@@ -464,9 +481,13 @@ Header ==
                             /\ Become(Run(Conf(<<Sym("FUN", "", 1), Sym("CALLER", "", 2)>>, sigs', Budget)))
 
 \* what the head of todo may become: a variable of the goal type in scope (committed frames only), or a production
+Strict(r) == [i \in 1..Len(r) |-> IF r[i].s \in {"EXPR", "GROUP"} THEN Sym(r[i].s, r[i].x, 1) ELSE r[i]]
 Options(h) ==
-    LET visible == {n \in VarsOf(h.x) : \A i \in 1..Len(env) : ~(<<"pending", "">> \in env[i].b /\ \E e \in env[i].b : e[1] = n)}
-    IN {p \in Prods(h) : p.c <= budget /\ p.p \notin Masked /\ (p.c = 0 \/ Focus = {} \/ p.p \in Focus)}
+    LET inbase == h.s = "EXPR" /\ h.n = 1
+        visible == {n \in VarsOf(h.x) : /\ \A i \in 1..Len(env) : ~(<<"pending", "">> \in env[i].b /\ \E e \in env[i].b : e[1] = n)
+                                        /\ ~(inbase /\ n \in late /\ "late_use" \in Masked)}
+        prods == {p \in Prods(h) : p.c <= budget /\ p.p \notin Masked /\ (p.c = 0 \/ Focus = {} \/ p.p \in Focus)}
+    IN (IF inbase THEN {[p EXCEPT !.r = Strict(p.r)] : p \in prods} ELSE prods)
        \cup (IF h.s \in {"EXPR", "EXPRP"} THEN {P(0, "var", <<T(n)>>) : n \in visible} ELSE {})
 Step ==
   /\ phase = "body" /\ todo # <<>>
@@ -481,7 +502,7 @@ Program == [sigs |-> [k \in 1..Len(sigs) |-> SigText(sigs, k)], out |-> out]
 Finish == /\ Sim /\ Done
           /\ PrintT(<<"CASE", ToJson(Program)>>)
           /\ todo' = <<>> /\ out' = <<>> /\ env' = <<>> /\ budget' = Budget /\ sigs' = <<>> /\ nv' = 0 /\ cur' = 0
-          /\ fw' = {} /\ round' = round + 1 /\ phase' = IF round + 1 < Rounds THEN "header" ELSE "end"
+          /\ fw' = {} /\ late' = {} /\ ld' = 0 /\ round' = round + 1 /\ phase' = IF round + 1 < Rounds THEN "header" ELSE "end"
 Next == Header \/ Step \/ Finish
 Spec == Init /\ [][Next]_vars
 
@@ -502,7 +523,7 @@ BindersScoped == LET starts == {i \in 1..Len(out) : out[i].r = "funstart"}
                      last == IF starts = {} THEN 0 ELSE CHOOSE i \in starts : \A j \in starts : j <= i
                  IN ~Done => \A i \in (last + 1)..Len(out) : out[i].r = "binder" => TyVars(out[i].ty) \subseteq SigVars(sigs[cur])
 \* every goal can be derived within any remaining budget (no behaviour gets stuck in the middle of a program)
-Derivable == (phase = "body" /\ todo # <<>>) => \E p \in Prods(todo[1]) \cup {P(0, "var", <<>>) : n \in VarsOf(todo[1].x)} : p.c = 0 /\ p.p \notin Masked
+Derivable == (phase = "body" /\ todo # <<>>) => \E p \in Options(todo[1]) : p.c = 0
 \* no generic function reaches a later function
 GenericsAcyclic == \A k \in fw : ~Generic(k)
 EmitCase == (~Sim /\ Done) => PrintT(<<"CASE", ToJson(Program)>>)
